@@ -309,6 +309,7 @@ func (e *Enc) lookup(fr *Frame, x *ssa.Lookup) {
 		return
 	}
 	mt := under(x.X.Type()).(*types.Map)
+	e.siteLookup(fr, x)
 	ref := e.scalar(e.val(fr, x.X))
 	kt, ok := e.mapKeyTerm(e.val(fr, x.Index), mt.Key())
 	var val Val
